@@ -561,6 +561,12 @@ class ReactiveServer:
     """Answers request k (complete head seen) with script[k]: the response bytes in
     segments, then optionally closes.  Response k+1 is sent only after request k+1 arrived."""
 
+    def on_close(self, conn):
+        # what a real transport does when the local side closes (connection_lost -> the
+        # StreamReaderProtocol feeds EOF): a read pending on this connection returns b''
+        if not conn.server_closed and not conn.reader._eof:
+            conn.reader.feed_eof()
+
     def __init__(self, shared):
         self.shared = shared
         self.buf = b''
@@ -578,6 +584,11 @@ class ReactiveServer:
             self.buf = rest[n:]
             sh = self.shared
             k = len(sh['requests'])
+            # answer by what was asked for (a request that never reached the server must not shift
+            # the script): the path names the exchange when the script has a path map
+            path = head.split(b' ')[1].decode('latin-1') if head.count(b' ') >= 2 else None
+            if path in sh.get('paths', {}):
+                k = sh['paths'][path]
             sh['requests'].append((sh['net'].conns.index(conn), head + b'\r\n\r\n' + rest[:n]))
             if k < len(sh['script']):
                 segs, eof = sh['script'][k]
@@ -585,7 +596,64 @@ class ReactiveServer:
                 sh['feeders'].append(t)
 
 
-def real_session_sequence(exchanges, recorder_params=None, keep_alive=True, ignore_length=False):
+class FaultyFile:
+    """A recorder temp file whose write() fails once, like a full disk (ENOSPC)."""
+
+    def __init__(self, f, fault, cur):
+        self.__dict__['_f'] = f
+        self.__dict__['_fault'] = fault
+        self.__dict__['_cur'] = cur
+
+    def write(self, data):
+        fault = self._fault
+        fault['n'] = fault.get('n', 0) + 1
+        if fault['n'] == fault['k'] and fault.get('fired_exchange') is None:
+            fault['fired_exchange'] = self._cur.get('k')
+            import errno
+            raise OSError(errno.ENOSPC, 'No space left on device (injected)')
+        return self._f.write(data)
+
+    def __getattr__(self, name):
+        return getattr(self._f, name)
+
+    def __iter__(self):
+        return iter(self._f)
+
+
+def install_recorder_fault(recorder, fault, cur):
+    """fault = {'point': 'response_data' | 'request_data' | 'end_request' | 'end_response', 'k': n}:
+    the n-th write into the response / request block file, or the n-th write_record of a request /
+    response record, raises OSError once.  Only harness-side wrapping of objects the recorder
+    hands out; `fault['fired_exchange']` tells in which exchange it happened."""
+    import errno
+    point = fault['point']
+    if point in ('response_data', 'request_data'):
+        orig_new = recorder.new_http_recorder_session
+
+        def new_session():
+            rs = orig_new()
+            if point == 'response_data':
+                rs._response_temp_file = FaultyFile(rs._response_temp_file, fault, cur)
+            else:
+                orig_tmp = rs._new_temp_file
+                rs._new_temp_file = lambda hint='warcrecsess': FaultyFile(orig_tmp(hint=hint), fault, cur)
+            return rs
+        recorder.new_http_recorder_session = new_session
+    else:
+        want = 'request' if point == 'end_request' else ('response', 'revisit')
+        orig_write = recorder.write_record
+
+        def write_record(record):
+            if record.fields.get('WARC-Type') in want:
+                fault['n'] = fault.get('n', 0) + 1
+                if fault['n'] == fault['k'] and fault.get('fired_exchange') is None:
+                    fault['fired_exchange'] = cur.get('k')
+                    raise OSError(errno.ENOSPC, 'No space left on device (injected)')
+            return orig_write(record)
+        recorder.write_record = write_record
+
+
+def real_session_sequence(exchanges, recorder_params=None, keep_alive=True, ignore_length=False, fault=None):
     """exchanges: list of dicts {segs, eof, method, version, path}.  Runs the REAL
     Client/Session (and, when `recorder_params` is given, the REAL WARCRecorder
     listening to it) against a reactive in-memory server, strictly lock-step.
@@ -600,6 +668,9 @@ def real_session_sequence(exchanges, recorder_params=None, keep_alive=True, igno
     async def go():
         net = fakenet.FakeNet()
         shared = {'net': net, 'script': [(e['segs'], e['eof']) for e in exchanges], 'requests': [], 'feeders': []}
+        paths = [e.get('path', '/p%d' % k) for k, e in enumerate(exchanges)]
+        if len(set(paths)) == len(paths):
+            shared['paths'] = {p: k for k, p in enumerate(paths)}
         net.listen('10.0.0.1', 80, lambda: ReactiveServer(shared))
         calls = []
         o_read, o_readline = wc.Connection.read, wc.BaseConnection.readline
@@ -644,7 +715,10 @@ def real_session_sequence(exchanges, recorder_params=None, keep_alive=True, igno
                     from wpull.warc.recorder import WARCRecorder
                     recorder = WARCRecorder(recorder_params['filename'], params=recorder_params['params'])
                     recorder.listen_to_http_client(client)
+                    if fault is not None:
+                        install_recorder_fault(recorder, fault, cur)
                 for k, e in enumerate(exchanges):
+                    cur['k'] = k
                     request = Request('http://h' + e.get('path', '/p%d' % k), method=e.get('method', 'GET'),
                                       version=e.get('version', 'HTTP/1.1'))
                     for n, v in e.get('req_fields', ()):
@@ -930,4 +1004,85 @@ def real_overlap(case, recorder_params):
         out['requests'] = [(c, p) for c, p, _ in shared['requests']]
         out['closed_under_reader'] = shared.get('closed_under_reader', 0)
         return out
+    return arun(go())
+
+
+# ------------------------------------------------------------------ one Connection object, read timeout, reconnects
+def real_timeout_sequence(exchanges, timeout):
+    """All exchanges run on ONE `Connection(timeout=...)` object through one `Stream`, with
+    `Stream.reconnect()` before each request as `Session.start` does.  An exchange whose response
+    stops mid-message (peer keeps the connection open) must end in NetworkTimedOut - the close
+    timer works on the loop clock, so real time is let pass - and later exchanges on the
+    reconnected object must be unaffected.  Returns one Exchange per exchange."""
+    from wpull.network.connection import Connection
+    from wpull.protocol.http.stream import Stream
+    from wpull.protocol.http.request import Request
+
+    async def go():
+        net = fakenet.FakeNet()
+        shared = {'net': net, 'script': [(e['segs'], e['eof']) for e in exchanges], 'requests': [], 'feeders': [],
+                  'paths': {e['path']: k for k, e in enumerate(exchanges)}}
+        net.listen('10.0.0.1', 80, lambda: ReactiveServer(shared))
+        results = []
+        with net:
+            conn = Connection(('10.0.0.1', 80), 'h', timeout=timeout)
+            calls = []
+            orig_read, orig_readline = conn.read, conn.readline
+
+            def read(amount=-1):
+                data = yield from orig_read(amount)
+                calls.append(('r', amount, bytes(data)))
+                return data
+
+            def readline():
+                data = yield from orig_readline()
+                calls.append(('l', 0, bytes(data)))
+                return data
+            conn.read = asyncio.coroutine(read)
+            conn.readline = asyncio.coroutine(readline)
+            stream = Stream(conn)
+            for k, e in enumerate(exchanges):
+                request = Request('http://h' + e['path'], method=e.get('method', 'GET'), version=e.get('version', 'HTTP/1.1'))
+                out = io.BytesIO()
+                del calls[:]
+                x = Exchange()
+                x.status = x.fields = x.body = x.exc = None
+                x.notified, x.declog, x.consumed, x.closed = [], [], 0, False
+
+                async def one():
+                    await compat._ensure(stream.reconnect())
+                    await compat._ensure(stream.write_request(request))
+                    response = await compat._ensure(stream.read_response())
+                    await compat._ensure(stream.read_body(request, response, file=out))
+                    return response
+                task = asyncio.ensure_future(one())
+                done = await fakenet.settle(task, shared['feeders'], extra=60)
+                waited = 0
+                while not done and waited < 8:
+                    await asyncio.sleep(timeout)        # real time: CloseTimer uses loop.call_later / loop.time
+                    waited += 1
+                    done = await fakenet.settle(task, shared['feeders'], extra=30)
+                if not done:
+                    task.cancel()
+                    try:
+                        await task
+                    except BaseException:
+                        pass
+                    x.outcome = 'stalled'
+                else:
+                    try:
+                        response = task.result()
+                        x.outcome = 'ok'
+                        x.status = (response.version, response.status_code, response.reason)
+                        x.fields = [(n, v) for n, v in response.fields.get_all()]
+                        x.body = out.getvalue()
+                    except Exception as exc:
+                        x.outcome = 'exc'
+                        x.exc = classify_exc(exc)
+                x.calls = list(calls)
+                results.append(x)
+                if x.outcome == 'stalled':
+                    break
+            conn.close()
+        return results, len(net.conns)
     return arun(go())
